@@ -70,10 +70,9 @@ Theorem xml_value_time : forall ft c m a t, Builtins m -> plain_attr a ->
   valid_dt t = true ->
   xml_reinsert ft c m a (VTime t) = Done m (Some (VTime t)).
 Proof.
-  intros ft c m a t B [Q [T L]] V. unfold xml_reinsert, xml_emit. norm_always. cbn [value_str].
-  rewrite Q, L, T, (iso_print_not_prov t V). cbn [andb negb].
-  replace ((ft || true || is_tlv a) && true && true && true && true)%bool with true
-    by (destruct ft, (is_tlv a); reflexivity).
+  intros ft c m a t B [Q [T L]] V. unfold xml_reinsert, xml_emit. norm_always. cbn [prov_str]. cbn [value_str].
+  rewrite Q, L, T. cbn [andb negb].
+  cond_true ft a.
   unfold xml_read; cbn [x_text x_type x_lang x_ref]. rewrite xml_name_vqn.
   change "xsd:dateTime" with ("xsd:" ++ "dateTime"). rewrite (vqn_builtin_xsd _ _ _ B).
   rewrite xsd_not_qname by discriminate. unfold insert_value. rewrite Q, T.
@@ -86,8 +85,8 @@ Theorem xml_value_formal_time : forall ft c m a t, is_qname_attr a = false -> is
   valid_dt t = true ->
   xml_reinsert ft c m a (VTime t) = Done m (Some (VTime t)).
 Proof.
-  intros ft c m a t Q T V. unfold xml_reinsert, xml_emit. norm_always. cbn [value_str].
-  rewrite Q, T, (iso_print_not_prov t V). cbn [andb negb].
+  intros ft c m a t Q T V. unfold xml_reinsert, xml_emit. norm_always. cbn [prov_str]. cbn [value_str].
+  rewrite Q, T. cbn [andb negb].
   match goal with |- context [if ?cnd then (None, iso_print t) else (None, iso_print t)] => destruct cnd end;
     unfold xml_read; cbn [x_text x_type x_lang x_ref];
     unfold insert_value; rewrite Q, T; cbn [time_value]; rewrite (parse_datetime_print t V); reflexivity.
